@@ -1067,6 +1067,17 @@ def chunk_placement(rep):
             root = root.value
         if isinstance(root, ast.Name):
             accname = root.id
+        if isinstance(acc, ast.Name):
+            # joined in a local first: the stage's result is where that local is stored
+            dest = [a for a in ast.walk(fn) if isinstance(a, ast.Assign)
+                    and isinstance(a.value, ast.Name) and a.value.id == acc.id
+                    and isinstance(a.targets[0], ast.Subscript)]
+            if len(dest) == 1:
+                root = dest[0].targets[0]
+                while isinstance(root, ast.Subscript):
+                    root = root.value
+                if isinstance(root, ast.Name):
+                    accname = root.id
         src = c.args[1] if len(c.args) > 1 else None
         root = src
         while isinstance(root, ast.Subscript):
@@ -1202,19 +1213,49 @@ def ghost_and_axes(rep):
 def restart_selection(rep):
     fn = fnode(rep, "read_ET_data")
     key = f"{RD}::read_ET_data"
-    outer = None
+    # the scan over restarts: every place where an iteration is booked on the restart named by
+    # the variable of an enclosing loop (X[R]['it to do'] += [iit] inside `for R in ...`)
+    sites = []
     for n in ast.walk(fn):
-        if isinstance(n, ast.For) and unparse(n.iter) == "it[::-1]":
-            outer = n
-    if outer is None:
+        tgt = None
+        if isinstance(n, ast.AugAssign) and isinstance(n.op, ast.Add):
+            tgt = n.target
+        elif isinstance(n, ast.Expr) and isinstance(n.value, ast.Call) \
+                and isinstance(n.value.func, ast.Attribute) and n.value.func.attr == "append":
+            tgt = n.value.func.value
+        if not (isinstance(tgt, ast.Subscript) and isinstance(tgt.slice, ast.Constant)
+                and tgt.slice.value == "it to do" and isinstance(tgt.value, ast.Subscript)
+                and isinstance(tgt.value.slice, ast.Name)):
+            continue
+        rname = tgt.value.slice.id
+        loops = [a for a in ancestors(n) if isinstance(a, (ast.For, ast.While))]
+        scan = [lp for lp in loops if isinstance(lp, ast.For) and (
+            unparse(lp.target) == rname
+            # ... or the restart is looked up from the loop's own variable
+            or any(isinstance(a, ast.Assign) and unparse(a.targets[0]) == rname
+                   and any(isinstance(x, ast.Name) and x.id in {
+                       t.id for t in ast.walk(lp.target) if isinstance(t, ast.Name)}
+                       for x in ast.walk(a.value)) for a in lp.body))]
+        if scan:
+            sites.append((n, scan[0], loops))
+    if not sites:
         raise AnalysisError("read_ET_data: restart selection loop not found")
-    inner = [n for n in outer.body if isinstance(n, ast.For)]
-    ok = False
-    if inner and unparse(inner[0].iter) == "list(its_available.keys())[::-1]":
-        last = inner[0].body[-1]
-        ok = isinstance(last, ast.If) and unparse(last.test) == "it_in_restart" \
-            and isinstance(last.body[-1], ast.Break) \
-            and "['it to do'] +=" in norm_src(last.body[0])
+    ok, outer = True, sites[0][1]
+    for n, scan, loops in sites:
+        src = rtext(fn, scan.iter)
+        latest_first = unparse(scan.target) == rname and (
+            src.endswith("[::-1]") or src.startswith("reversed(") or (
+                src.startswith("sorted(") and "reverse=True" in src))
+        blk, k = None, None
+        par = getattr(n, "_parent", None)
+        for field in ("body", "orelse", "finalbody"):
+            b_ = getattr(par, field, None)
+            if isinstance(b_, list) and any(x is n for x in b_):
+                blk, k = b_, [i for i, x in enumerate(b_) if x is n][0]
+        stops = blk is not None and k + 1 < len(blk) and isinstance(blk[k + 1], ast.Break) \
+            and loops and loops[0] is scan
+        ok = ok and latest_first and bool(stops)
+        outer = scan
     rep.check(ok, "restart-selection", key + "::latest-first",
               "restarts must be scanned from the latest to the earliest and the scan must stop "
               "at the first restart containing the iteration (an iteration present in several "
